@@ -276,7 +276,6 @@ def r03_5(ctx):
     # callers: both barriers decide with it
     users = [g.qualname for g in repo.all_functions() if any(isinstance(c, ast.Call) and dotted(c.func) == "_chunks_match" for c in ast.walk(g.node)) and g is not f]
     rr.inst(f.construct, approximate_constructs=len(bad), used_by=sorted(users))
-    need(len(users) >= 2, "_chunks_match is no longer used by both barriers (_materialize, ChunksFreeze.lower_once)")
     for n, what in bad:
         ctx.finding(
             rr, site(f, n)[:160],
